@@ -487,6 +487,8 @@ def run(ctx):
     # the vanished one aimed at the first / middle / last place of the code's iteration
     rng = random.Random(ctx.seed * 15485863 + 7)
     hists += [('vanish', drv.gen_vanish(rng, position=k % 3), 'none') for k in range(24 if ctx.quick else 450)]
+    # zero-length files left under instance names by the directory's prior life
+    hists += [('blank', drv.gen_blank(rng), 'none' if k % 3 else '3') for k in range(24 if ctx.quick else 450)]
     traces = _record(ctx, hists)
     ctx.log('recorded %d traces (%d with a cut), %d lines' % (
         len(traces), sum(1 for t in traces if t['src'].endswith('+cut')),
